@@ -68,6 +68,7 @@ pub fn gen_case(prop: &str, seed: u64, tier: &str, run: u64) -> Case {
             }
         }
         "C02" => {
+            p.huge_contents = true;
             p.w_reopen = 14;
             p.w_checkpoint = 8;
             p.boundary_reopen = true;
